@@ -1,9 +1,11 @@
 (** C09 -- Every operation releases the storage locks it took, on every exit path.
     Statements over the Issuance LTS (obtain, renew sync/async, ManageSync, CleanStorage, ARI
     update; any number of threads; every schedule; every plan of error / cancel / panic faults). *)
-From Coq Require Import List Bool Arith Lia.
-From CM Require Import Issuance.Model Issuance.Proofs Issuance.Invariants Issuance.Refuted.
+From Coq Require Import List Bool Arith Lia NArith.
+From CM Require Import Gen.Consts Issuance.Model Issuance.Proofs Issuance.Invariants Issuance.Refuted.
 Import ListNotations.
+Close Scope N_scope.
+Open Scope nat_scope.
 
 (** locks_released: along every run in which no Unlock call *of request t itself* is made to fail
     (all other operations of t, and all operations of all other requests, may fail, be cancelled
@@ -60,3 +62,21 @@ Proof.
   exists s, es. vm_compute in R. inversion R; subst s es; clear R.
   eexists. split; [reflexivity|]. unfold thread_at; simpl. split; [reflexivity|]. auto.
 Qed.
+
+(** tie to the source (translator T, re-read from the working tree on every run): the five
+    functions that take storage locks -- obtainCert, renewCert, updateARI, CleanStorage,
+    newACMEClientWithAccount -- are the only callers of acquireLock / releaseLock, and in each the
+    acquisition is followed, right after its error return, by the deferred release of the same
+    storage and key (the model's [PLockWait] -> locked region -> [PUnlock] shape); releaseLock
+    unlocks with context.WithoutCancel and drops the record exactly when Unlock succeeded;
+    acquireLock records exactly when Lock succeeded ([recd]); the lock names *)
+Theorem C09_source_shape_matches_model :
+  c09_lock_site_count = 5 /\ c09_every_acquire_has_deferred_release = true /\
+  c09_release_uses_context_without_cancel = true /\
+  c09_record_deleted_iff_unlock_ok = true /\ c09_record_inserted_iff_lock_ok = true /\
+  c09_clean_lock_name = [115; 116; 111; 114; 97; 103; 101; 95; 99; 108; 101; 97; 110]%N /\
+  c09_ari_lock_prefix = [97; 114; 105; 95]%N /\
+  c09_account_lock_prefix = [114; 101; 103; 105; 115; 116; 101; 114; 95; 97; 99; 109; 101; 95; 97; 99; 99; 111; 117; 110; 116]%N.
+Proof. repeat split; reflexivity. Qed.
+Print Assumptions C09_source_shape_matches_model.
+
